@@ -24,6 +24,7 @@ RULE = (
     "rebuild+refill}, mutation kind in {none, numeric field, key add/remove/rename, extra trailing bin, child replaced, structural "
     "parameter, extra fill, other primitive type} applied at a uniformly chosen node of the clone). distinct = digest(spec, stream, "
     "clone kind, mutation); non-trivial = the three comparisons were evaluated and, for mutants, the documents really differ"
+    ' Every 12th case the state is assembled by Stack.build / Fraction.build; mutations are biased to special keys (NaN/inf Bag keys, saturated sparse indexes).'
 )
 ASSUMPTIONS = [
     "content = the toJson document with quantity names dropped (C09 speaks of type, structural parameters and aggregated content)",
